@@ -3613,7 +3613,7 @@ def c17(rep, tier, seed, wd, replay):
 THEOREMS.update({
     "C12": ("Dirk.Props.C12", ["Dirk.Dkg.C12_share_consistent", "Dirk.Dkg.C12_same_key", "Dirk.Dkg.C12_recover", "Dirk.Dkg.C12_fewer_fail",
                                "Dirk.Dkg.C12_bounds", "Dirk.Dkg.C12_protocol_success", "Dirk.Dkg.C12_generation_succeeds", "Dirk.Dkg.C12_kernel_is_source"]),
-    "C20": ("Dirk.Props.C20", ["Dirk.C20_sites_covered", "Dirk.C20_domain_slice_safe", "Dirk.C20_alloc_bounded", "Dirk.C20_dkg_non_peer",
+    "C20": ("Dirk.Props.C20", ["Dirk.C20_handler_response_is_source", "Dirk.hSignAtts_eq_gen", "Dirk.hMultisign_eq_gen", "Dirk.handler_shape_is_source", "Dirk.C20_sites_covered", "Dirk.C20_domain_slice_safe", "Dirk.C20_alloc_bounded", "Dirk.C20_dkg_non_peer",
                                "Dirk.C20_handlers_shape", "Dirk.C20_kernel_is_source", "Dirk.C20_legacy_counterexample"]),
     "C19": ("Dirk.Props.C19", ["Dirk.C19_policy", "Dirk.C19", "Dirk.facts_tls_clientAuth", "Dirk.facts_tls_minVersion", "Dirk.facts_tls_clientCAs",
                                "Dirk.facts_tls_creds", "Dirk.facts_tls_fields", "Dirk.facts_services", "Dirk.facts_interceptor", "Dirk.facts_clientName"]),
